@@ -23,6 +23,11 @@ pub fn ranges_ok(src: &str, root: &Node) -> Result<(), (String, String)> {
         if let Some(t) = n.cast::<Text>() {
             let sl = &src[a..b];
             if !sl.contains('\n') && !sl.contains('\r') && sl != t.content {
+                // known finding: a tab split by a container's indent leaves VIRTUAL spaces (columns without source
+                // bytes) in front of the text; in a code span they are content, and no range can select them
+                if t.content.len() > sl.len() && t.content.ends_with(sl) && t.content[..t.content.len() - sl.len()].bytes().all(|c| c == b' ') && src[..a].ends_with('\t') {
+                    return Err(("text-faithful-split-tab".into(), format!("Text {:?} has range ({},{}) selecting {:?}: the leading spaces are the virtual columns of the tab before it, cut by a container indent", t.content, a, b, sl)));
+                }
                 return Err(("text-faithful".into(), format!("Text {:?} has range ({},{}) selecting {:?}", t.content, a, b, sl)));
             }
         }
@@ -51,11 +56,18 @@ pub fn targeted(rng: &mut Rng) -> String {
     let inl = doc::inline_text(rng, 0, 5);
     let pre = *rng.pick(&["a\n\n", "é\n\n", "> ", "- ", "1. ", "- a\n\n \t", "> - ", "x\r\n\r\n", "# h\n", "", "\tcode\n\n", "- a\n  - "]);
     let post = *rng.pick(&["", "\n", "  \nd", "\n\nz", "\r\n"]);
+    // code spans that cross a line whose tab is split by a container indent (virtual spaces inside code content)
+    if rng.chance(1, 8) {
+        let open = *rng.pick(&["- `", "> `", "1. `x", "- ``", "- a `b", ">  - `", "- `  "]);
+        let cont = *rng.pick(&["\n\t", "\n\t\t", "\n \t", "\n>\t", "\n  \t", "\r\n\t"]);
+        let close = *rng.pick(&[" `", "`", " ``", "\n\t`", " ` z"]);
+        return format!("{open}{cont}{}{close}", doc::inline_text(rng, 0, 2).replace('`', "'"));
+    }
     format!("{pre}{inl}{post}")
 }
 
 pub fn run(n: usize, rng: &mut Rng, rep: &mut Report) {
-    let corpus = ["a\n\n*b*", "a\n\n*b* c  \nd", "> ```\nfoo\n```", "- a\n\n \tb"];
+    let corpus = ["a\n\n*b*", "a\n\n*b* c  \nd", "> ```\nfoo\n```", "- a\n\n \tb", "- `\n\ta `", "- )) `\n\t\u{e9} `"];
     let mut cases: Vec<(cfg::Cfg, String)> = corpus.iter().map(|s| (cfg::Cfg::stock(), s.to_string())).collect();
     for _ in 0..n {
         let c = if rng.chance(2, 3) { let mut c = cfg::Cfg::stock(); if rng.chance(1, 3) { c.mask |= 1 << cfg::STRIKE; } c } else { cfg::sample(rng, true, true) };
